@@ -177,7 +177,9 @@
  * slot.  If we let the compiler know this too, it can optimize away
  * the "if (value in one slot)" branch and just use always-two-slot
  * reading/writing. */
-#ifndef PACK_STORAGE_COMPACT
+#if !defined(PACK_STORAGE_COMPACT) || PACK_STORAGE_BITS <= 8
+/* (compact storage of 8 bits or fewer uses uint8_t slots, where a value
+ * can sit inside one slot; the two-slot path would touch the slot after it) */
 #define SLOT_CAN_HOLD_ENTIRE_VALUE 1
 #endif
 /* We can't define HOLD_ENTIRE_VALUE as below because BITS_PER_SLOT has sizeof()
